@@ -14,11 +14,50 @@ use std::sync::Arc;
 use varpulis_runtime::persistence::{Checkpoint, MemoryStore, StateStore, StoreError};
 use varpulis_runtime::tenant::{SharedTenantManager, TenantManager};
 
-pub const SOURCES: [&str; 3] = [
-    "stream S = A\n    .where(x > 1)\n    .emit(x: x)\n",
+/// Pipeline sources used by the histories. 0-4 declare exactly the same stream (`Scaled`), so a reload between
+/// any two of them changes no stream: 1 differs from 0 only in comments and blank lines, 2 in the body of a user
+/// function, 3 in an event declaration, 4 in a constant. 5 changes the stream itself, 6 and 7 are other programs.
+/// A reload with the index already deployed is a byte-identical reload.
+pub const SOURCES: [&str; 8] = [
+    "fn scale(x: float) -> float:\n    x * 2.0\n\nstream Scaled = Measurement\n    .emit(result: scale(value))\n",
+    "# reloaded: same program, new comment\nfn scale(x: float) -> float:\n    x * 2.0\n\n\nstream Scaled = Measurement\n    .emit(result: scale(value))\n\n",
+    "fn scale(x: float) -> float:\n    x * 10.0\n\nstream Scaled = Measurement\n    .emit(result: scale(value))\n",
+    "event Measurement:\n    value: float\n\nfn scale(x: float) -> float:\n    x * 2.0\n\nstream Scaled = Measurement\n    .emit(result: scale(value))\n",
+    "const FACTOR = 3\n\nfn scale(x: float) -> float:\n    x * 2.0\n\nstream Scaled = Measurement\n    .emit(result: scale(value))\n",
+    "fn scale(x: float) -> float:\n    x * 2.0\n\nstream Scaled = Measurement\n    .where(value > 1.0)\n    .emit(result: scale(value))\n",
     "stream S = A\n    .where(x > 2)\n    .emit(y: x)\n",
     "stream S2 = B\n    .emit(z: z)\n",
 ];
+
+/// {"prop":"C22src"}: every source must parse and load, and the stream-preserving ones must really reload
+/// with an empty ReloadReport (otherwise the histories do not reach the case they are meant to reach).
+pub fn sources_ok(_req: &J) -> J {
+    let mut out = Vec::new();
+    for (i, src) in SOURCES.iter().enumerate() {
+        let parsed = varpulis_parser::parse(src);
+        let ok = match &parsed {
+            Ok(p) => {
+                let (tx, _rx) = tokio::sync::mpsc::channel(10);
+                let mut e = varpulis_runtime::engine::Engine::new(tx);
+                e.load(p).is_ok()
+            }
+            Err(_) => false,
+        };
+        // reload from source 0
+        let empty_report = match (varpulis_parser::parse(SOURCES[0]), &parsed) {
+            (Ok(p0), Ok(p)) => {
+                let (tx, _rx) = tokio::sync::mpsc::channel(10);
+                let mut e = varpulis_runtime::engine::Engine::new(tx);
+                let _ = e.load(&p0);
+                e.reload(p).map(|r| r.is_empty()).unwrap_or(false)
+            }
+            _ => false,
+        };
+        out.push(json!({"index": i, "loads": ok, "reload_from_0_changes_no_stream": empty_report,
+                        "error": parsed.err().map(|e| e.to_string())}));
+    }
+    json!({ "sources": out })
+}
 
 pub struct CrashingStore {
     inner: Arc<MemoryStore>,
